@@ -636,3 +636,203 @@ Proof. exact ProofsMixParam2.prod_loop_get. Qed.
 Theorem composite_get_after_set :
   forall (T F : Type) (arity : F -> nat) (guard : F -> list T -> bool) (t : ptree T F), tree_ok T F arity t -> forall (p : list T) (t' : ptree T F), length (tree_get T F t) <= length p -> tree_set T F arity guard t p = SOk t' -> tree_get T F t' = firstn (length (tree_get T F t)) p /\ tree_ok T F arity t'.
 Proof. exact ProofsMixParam2.tree_get_after_set. Qed.
+
+(* ---- round 6: the Pdf METHODS (`if err := LogPdf(r, x); err != nil { return err }; r.Exp(r)`: Model.X_pdfm / pdf_of).
+   Pdf returns the textbook density / mass itself on the support and exactly 0 outside it (never negative, never NaN);
+   an error of LogPdf is passed on.  The shape of every Pdf / Cdf method of the three packages is re-read from the
+   source on every run (CorrS.model_shapes against the generated gen_shapes); exp_wrappers_sound: the dispatcher
+   obeys that table. ---- *)
+Close Scope nat_scope.
+Open Scope R_scope.
+From ADV Require Import C14.CorrS.
+From ADV Require C14.ProofsPdf.
+Import ProofsPdf (nonneg_res).
+
+Theorem pdf_never_negative :
+  forall r : res, nonneg_res (pdf_of r).
+Proof. exact ProofsPdf.pdf_of_nonneg. Qed.
+
+Theorem pdf_passes_errors_on :
+  forall r : res, (forall v : ER, r <> Val v) -> pdf_of r = r.
+Proof. exact ProofsPdf.pdf_of_err. Qed.
+
+Theorem exp_wrappers_sound :
+  forall (lgam lerfc : R -> R) (gamP : R -> R -> R) (f : fam) (g m : fn), exp_wrapper_of f g m -> forall (ps : list R) (zs : list Z) (x : R), eval lgam lerfc gamP f g ps zs x = pdf_of (eval lgam lerfc gamP f m ps zs x).
+Proof. exact ProofsPdf.exp_wrappers_sound. Qed.
+
+Theorem exp_wrappers_cover_pdf :
+  forall f : fam, f <> FNormal -> exp_wrapper_of f Pdf LogPdf.
+Proof. exact ProofsPdf.exp_wrappers_cover. Qed.
+
+Theorem exp_wrappers_cover_cdf :
+  forall f : fam, In f [FNormal; FExponential; FLaplace; FPareto; FGPareto; FGev; FCategorical; FPowerLaw] -> exp_wrapper_of f Cdf LogCdf.
+Proof. exact ProofsPdf.exp_wrappers_cdf. Qed.
+
+Theorem exponential_density :
+  forall lambda : R, exponential_valid lambda -> exists d : exp_d, exp_new lambda = Some d /\ (forall x : R, 0 <= x -> exp_pdfm d x = Val (Fin (exponential_pdf lambda x))) /\ (forall x : R, x < 0 -> exp_pdfm d x = Val (Fin 0)).
+Proof. exact ProofsPdf.exponential_density. Qed.
+
+Theorem laplace_density :
+  forall mu sigma : R, laplace_valid mu sigma -> exists d : lap_d, lap_new mu sigma = Some d /\ (forall x : R, lap_pdfm d x = Val (Fin (laplace_pdf mu sigma x))).
+Proof. exact ProofsPdf.laplace_density. Qed.
+
+Theorem pareto_density :
+  forall lambda kappa : R, pareto_valid lambda kappa -> exists d : par_d, par_new lambda kappa = Some d /\ (forall x : R, lambda <= x -> par_pdfm d x = Val (Fin (pareto_pdf lambda kappa x))) /\ (forall x : R, x < lambda -> par_pdfm d x = Val (Fin 0)).
+Proof. exact ProofsPdf.pareto_density. Qed.
+
+Theorem gpareto_density :
+  forall mu sigma xi : R, gpareto_valid mu sigma xi -> exists d : gp_d, gp_new mu sigma xi = Some d /\ (forall x : R, mu <= x -> (xi < 0 -> x < mu - sigma / xi) -> gp_pdfm d x = Val (Fin (gpareto_pdf mu sigma xi x))) /\ (forall x : R, ~ gpareto_support mu sigma xi x -> gp_pdfm d x = Val (Fin 0)).
+Proof. exact ProofsPdf.gpareto_density. Qed.
+
+Theorem gev_density :
+  forall mu sigma xi : R, gev_valid mu sigma xi -> exists d : gev_d, gev_new mu sigma xi = Some d /\ (forall x : R, gev_support mu sigma xi x -> gev_pdfm d x = Val (Fin (gev_pdf mu sigma xi x))) /\ (forall x : R, ~ gev_support mu sigma xi x -> gev_pdfm d x = Val (Fin 0)).
+Proof. exact ProofsPdf.gev_density. Qed.
+
+Theorem cauchy_density :
+  forall mu sigma : R, cauchy_valid mu sigma -> exists d : cau_d, cau_new mu sigma = Some d /\ (forall x : R, cau_pdfm d x = Val (Fin (cauchy_pdf mu sigma x))).
+Proof. exact ProofsPdf.cauchy_density. Qed.
+
+Theorem powerlaw_density :
+  forall alpha xmin : R, powerlaw_valid alpha xmin -> exists d : pl_d, pl_new alpha xmin = Some d /\ (forall x : R, xmin <= x -> pl_pdfm d x = Val (Fin (powerlaw_pdf alpha xmin x))) /\ (forall x : R, x < xmin -> pl_pdfm d x = Val (Fin 0)).
+Proof. exact ProofsPdf.powerlaw_density. Qed.
+
+Theorem gamma_density :
+  forall (lgam : R -> R) (alpha beta : R), gamma_valid alpha beta -> exists d : gam_d, gam_new lgam alpha beta = Some d /\ (forall x : R, 0 < x -> gam_pdfm d x = Val (Fin (gamma_pdf lgam alpha beta x))) /\ (forall x : R, x <= 0 -> gam_pdfm d x = Val (Fin 0)).
+Proof. exact ProofsPdf.gamma_density. Qed.
+
+Theorem gengamma_density :
+  forall (lgam : R -> R) (a d p : R), gengamma_valid a d p -> exists g : gg_d, gg_new lgam a d p = Some g /\ (forall x : R, 0 < x -> gg_pdfm g x = Val (Fin (gengamma_pdf lgam a d p x))) /\ (forall x : R, x <= 0 -> gg_pdfm g x = Val (Fin 0)).
+Proof. exact ProofsPdf.gengamma_density. Qed.
+
+Theorem chisq_density :
+  forall (lgam : R -> R) (k : R), chisq_valid k -> exists d : chi_d, chi_new lgam k = Some d /\ (forall x : R, 0 < x -> chi_pdfm d x = Val (Fin (chisq_pdf lgam k x))) /\ (forall x : R, x < 0 -> chi_pdfm d x = Val (Fin 0)) /\ (2 < k -> chi_pdfm d 0 = Val (Fin 0)) /\ (k = 2 -> chi_pdfm d 0 = Val (Fin (/ (2 * Gam lgam 1)))) /\ (k < 2 -> chi_pdfm d 0 = Val PInf).
+Proof. exact ProofsPdf.chisq_density. Qed.
+
+Theorem beta_density :
+  forall (lgam : R -> R) (a b : R), beta_valid a b -> exists d : beta_d, beta_new lgam a b false = Some d /\ (forall x : R, 0 < x < 1 -> beta_pdfm d x = Val (Fin (beta_pdf lgam a b x))) /\ (forall x : R, x < 0 \/ 1 < x -> beta_pdfm d x = Val (Fin 0)).
+Proof. exact ProofsPdf.beta_density. Qed.
+
+Theorem beta_logscale_density :
+  forall (lgam : R -> R) (a b : R), beta_valid a b -> exists d : beta_d, beta_new lgam a b true = Some d /\ (forall x : R, x < 0 -> beta_pdfm d x = Val (Fin (beta_pdf lgam a b (exp x)))) /\ (forall x : R, 0 < x -> beta_pdfm d x = Val (Fin 0)).
+Proof. exact ProofsPdf.beta_logscale_density. Qed.
+
+Theorem geometric_mass :
+  forall p : R, 0 < p < 1 -> exists d : geo_d, geo_new p = Some d /\ (forall k : Z, (0 <= k)%Z -> geo_pdfm d (IZR k) = Val (Fin (geometric_pmf p k))) /\ (forall k : Z, (k < 0)%Z -> geo_pdfm d (IZR k) = Val (Fin 0)) /\ (forall x : R, is_intb x = false -> geo_pdfm d x = ErrInt).
+Proof. exact ProofsPdf.geometric_mass. Qed.
+
+Theorem poisson_mass :
+  forall (lgam : R -> R) (lambda : R), poisson_valid lambda -> exists d : R, poi_new lambda = Some d /\ (forall k : Z, (0 <= k)%Z -> poi_pdfm lgam d (IZR k) = Val (Fin (poisson_pmf lgam lambda k))) /\ (forall k : Z, (k < 0)%Z -> poi_pdfm lgam d (IZR k) = Val (Fin 0)) /\ (forall x : R, is_intb x = false -> poi_pdfm lgam d x = ErrInt).
+Proof. exact ProofsPdf.poisson_mass. Qed.
+
+Theorem negbinomial_mass :
+  forall (lgam : R -> R) (r p : R), 0 < r -> 0 < p < 1 -> exists d : nb_d, nb_new lgam r p = Some d /\ (forall k : Z, (0 <= k)%Z -> nb_pdfm lgam d (IZR k) = Val (Fin (negbinomial_pmf lgam r p k))) /\ (forall k : Z, (k < 0)%Z -> nb_pdfm lgam d (IZR k) = Val (Fin 0)) /\ (forall x : R, is_intb x = false -> nb_pdfm lgam d x = Val (Fin 0)).
+Proof. exact ProofsPdf.negbinomial_mass. Qed.
+
+Theorem binomial_mass :
+  forall (lgam : R -> R) (theta : R) (n : Z), 0 < theta < 1 -> (0 <= n)%Z -> exists d : bin_d, bin_new lgam theta n = Some d /\ (forall k : Z, (0 <= k <= n)%Z -> bin_pdfm lgam d (IZR k) = Val (Fin (binomial_pmf lgam theta n k))) /\ (forall k : Z, (k < 0)%Z \/ (n < k)%Z -> bin_pdfm lgam d (IZR k) = Val (Fin 0)) /\ (forall x : R, is_intb x = false -> bin_pdfm lgam d x = Val (Fin 0)).
+Proof. exact ProofsPdf.binomial_mass. Qed.
+
+Theorem categorical_mass_pdf :
+  forall theta : list R, theta <> [] -> List.Forall (fun t : R => 0 < t) theta -> exists d : list ER, cat_new theta = Some d /\ (forall k : Z, (0 <= k < Z.of_nat (length theta))%Z -> cat_pdfm d (IZR k) = Val (Fin (nth (Z.to_nat k) theta 0))) /\ (forall k : Z, (k < 0)%Z \/ (Z.of_nat (length theta) <= k)%Z -> cat_pdfm d (IZR k) = Val (Fin 0)) /\ (forall x : R, is_intb x = false -> cat_pdfm d x = ErrInt).
+Proof. exact ProofsPdf.categorical_mass_pdf. Qed.
+
+Theorem delta_mass :
+  forall X x : R, delta_pdfm X x = (if Req_EM_T x X then Val (Fin 1) else Val (Fin 0)).
+Proof. exact ProofsPdf.delta_mass. Qed.
+
+Theorem translation_density :
+  forall (inner : R -> res) (f : R -> R) (c : R), (forall y : R, inner y = Val (Fin (ln (f y)))) -> (forall y : R, 0 < f y) -> forall x : R, translation_pdfm inner c x = Val (Fin (f (x + c))).
+Proof. exact ProofsPdf.translation_density. Qed.
+
+Theorem logtransform_density :
+  forall (inner : R -> res) (f : R -> R) (c : R), (forall y : R, inner y = Val (Fin (ln (f y)))) -> (forall y : R, 0 < f y) -> (forall x : R, 0 <= x -> 0 < x + c -> logtransform_pdfm inner c x = Val (Fin (f (ln (x + c)) / (x + c)))) /\ (forall x : R, x < 0 -> logtransform_pdfm inner c x = Val (Fin 0)).
+Proof. exact ProofsPdf.logtransform_density. Qed.
+
+Theorem mvt_density :
+  forall (lgam : R -> R) (nu : R) (mu : list R) (sinv : list (list R)) (sdet : R) (x : list R), 0 < nu -> 0 < sdet -> 0 <= qform sinv x mu -> pdf_of (vt_logpdf (vt_new lgam nu mu sinv sdet) x) = Val (Fin (mvt_pdf lgam nu (length mu) sdet (qform sinv x mu))).
+Proof. exact ProofsPdf.mvt_density. Qed.
+
+Theorem mvn_density :
+  forall (mu : list R) (sinv : list (list R)) (sdet : R) (x : list R), 0 < sdet -> length x = length mu -> exists d : vn_d, vn_new mu sinv sdet = Some d /\ pdf_of (vn_logpdf d x) = Val (Fin (mvn_pdf (length mu) sdet (qform sinv x mu))).
+Proof. exact ProofsPdf.mvn_density. Qed.
+
+(* non-vacuity: the wrapped normal is an instance of the wrapper theorems (inner = normal LogPdf, f = its density > 0),
+   and the table has the exp-wrappers the dispatcher theorem is about *)
+Example translation_density_instance :
+  exists d : normal_d, normal_new 1 2 = Some d /\ forall x : R, translation_pdfm (normal_logpdf d) 3 x = Val (Fin (normal_pdf 1 2 (x + 3))).
+Proof.
+  destruct (ProofsCont.normal_formula 1 2) as (d & Hn & Hf); [unfold normal_valid; lra|].
+  exists d. split; [exact Hn|]. apply ProofsPdf.translation_density; [exact Hf|].
+  intro y. unfold normal_pdf. apply Rmult_lt_0_compat; [|apply exp_pos].
+  apply Rinv_0_lt_compat, Rmult_lt_0_compat; [lra|]. apply sqrt_lt_R0. pose proof PI_RGT_0. lra.
+Qed.
+
+Example exp_wrappers_instance :
+  exp_wrapper_of FGev Pdf LogPdf /\ exp_wrapper_of FLaplace Cdf LogCdf /\ ~ exp_wrapper_of FGamma Cdf LogCdf /\ ~ exp_wrapper_of FNormal Pdf LogPdf.
+Proof. repeat split; try reflexivity; intro H; discriminate H. Qed.
+
+(* ---- round 6: cdf / normalisation of the generalised Pareto, GEV and Cauchy families (ProofsNorm3.v).
+   [gp_arg mu sigma xi x] = 1 + xi (x - mu)/sigma; it is positive exactly on the interior of the support. ---- *)
+From ADV Require C14.ProofsNorm3.
+Import ProofsNorm3 (gp_arg, cauchy_cdf_spec).
+
+Theorem gev_support_is_gp_arg_pos :
+  forall mu sigma xi x : R, gev_support mu sigma xi x <-> 0 < gp_arg mu sigma xi x.
+Proof. exact ProofsNorm3.gev_support_arg. Qed.
+
+Theorem gpareto_cdf_derive :
+  forall mu sigma xi x : R, 0 < sigma -> 0 < gp_arg mu sigma xi x -> is_derive (gpareto_cdf_spec mu sigma xi) x (gpareto_pdf mu sigma xi x).
+Proof. exact ProofsNorm3.gpareto_cdf_derive. Qed.
+
+Theorem gpareto_integral :
+  forall mu sigma xi a b : R, 0 < sigma -> a <= b -> 0 < gp_arg mu sigma xi a -> 0 < gp_arg mu sigma xi b -> is_RInt (gpareto_pdf mu sigma xi) a b (gpareto_cdf_spec mu sigma xi b - gpareto_cdf_spec mu sigma xi a).
+Proof. exact ProofsNorm3.gpareto_integral. Qed.
+
+Theorem gpareto_cdf_increasing :
+  forall mu sigma xi x y : R, 0 < sigma -> x < y -> 0 < gp_arg mu sigma xi x -> 0 < gp_arg mu sigma xi y -> gpareto_cdf_spec mu sigma xi x < gpareto_cdf_spec mu sigma xi y.
+Proof. exact ProofsNorm3.gpareto_cdf_increasing. Qed.
+
+Theorem gpareto_norm :
+  forall mu sigma xi : R, gpareto_valid mu sigma xi -> 0 <= xi -> (forall b : R, mu <= b -> is_RInt (gpareto_pdf mu sigma xi) mu b (gpareto_cdf_spec mu sigma xi b)) /\ is_lim (gpareto_cdf_spec mu sigma xi) p_infty 1.
+Proof. exact ProofsNorm3.gpareto_norm. Qed.
+
+Theorem gpareto_norm_bounded_support :
+  forall mu sigma xi : R, 0 < sigma -> xi < 0 -> (forall b : R, mu <= b -> 0 < gp_arg mu sigma xi b -> is_RInt (gpareto_pdf mu sigma xi) mu b (gpareto_cdf_spec mu sigma xi b)) /\ filterlim (gpareto_cdf_spec mu sigma xi) (at_left (mu - sigma / xi)) (locally 1).
+Proof. exact ProofsNorm3.gpareto_norm_bounded. Qed.
+
+Theorem gev_cdf_derive :
+  forall mu sigma xi x : R, 0 < sigma -> 0 < gp_arg mu sigma xi x -> is_derive (gev_cdf_spec mu sigma xi) x (gev_pdf mu sigma xi x).
+Proof. exact ProofsNorm3.gev_cdf_derive. Qed.
+
+Theorem gev_integral :
+  forall mu sigma xi a b : R, 0 < sigma -> a <= b -> 0 < gp_arg mu sigma xi a -> 0 < gp_arg mu sigma xi b -> is_RInt (gev_pdf mu sigma xi) a b (gev_cdf_spec mu sigma xi b - gev_cdf_spec mu sigma xi a).
+Proof. exact ProofsNorm3.gev_integral. Qed.
+
+Theorem gev_cdf_increasing :
+  forall mu sigma xi x y : R, 0 < sigma -> x < y -> 0 < gp_arg mu sigma xi x -> 0 < gp_arg mu sigma xi y -> gev_cdf_spec mu sigma xi x < gev_cdf_spec mu sigma xi y.
+Proof. exact ProofsNorm3.gev_cdf_increasing. Qed.
+
+Theorem gumbel_limits_partial :  (* GEV with xi = 0; the limits at the end points for xi <> 0 are not proved *)
+  forall mu sigma : R, 0 < sigma -> is_lim (gev_cdf_spec mu sigma 0) m_infty 0 /\ is_lim (gev_cdf_spec mu sigma 0) p_infty 1.
+Proof. exact ProofsNorm3.gumbel_limits. Qed.
+
+Theorem cauchy_cdf_derive :
+  forall (mu sigma : R) (x : R_AbsRing), 0 < sigma -> is_derive (cauchy_cdf_spec mu sigma) x (cauchy_pdf mu sigma x).
+Proof. exact ProofsNorm3.cauchy_cdf_derive. Qed.
+
+Theorem cauchy_cdf_range :
+  forall mu sigma x : R, 0 < cauchy_cdf_spec mu sigma x < 1.
+Proof. exact ProofsNorm3.cauchy_cdf_range. Qed.
+
+Theorem cauchy_cdf_increasing :
+  forall mu sigma x y : R, 0 < sigma -> x < y -> cauchy_cdf_spec mu sigma x < cauchy_cdf_spec mu sigma y.
+Proof. exact ProofsNorm3.cauchy_cdf_increasing. Qed.
+
+Theorem cauchy_norm :
+  forall mu sigma : R, cauchy_valid mu sigma -> (forall a b : R, is_RInt (cauchy_pdf mu sigma) a b (cauchy_cdf_spec mu sigma b - cauchy_cdf_spec mu sigma a)) /\ is_lim (cauchy_cdf_spec mu sigma) m_infty 0 /\ is_lim (cauchy_cdf_spec mu sigma) p_infty 1.
+Proof. exact ProofsNorm3.cauchy_norm. Qed.
+
+(* non-vacuity: interior points of the three kinds of support *)
+Example gp_arg_instances :
+  0 < gp_arg 0 1 (1 / 2) 3 /\ 0 < gp_arg 0 1 (-1 / 2) 1 /\ 0 < gp_arg 2 (3 / 4) 0 (-5) /\ ~ 0 < gp_arg 0 1 (-1 / 2) 2 /\ gpareto_valid 0 1 (1 / 2) /\ cauchy_valid 1 2.
+Proof. unfold gp_arg, gpareto_valid, cauchy_valid. repeat split; try lra. Qed.
